@@ -370,6 +370,8 @@ def run(ctx):
     ctx.rule('C06.SHIELD', lambda: rule_shield(ctx), 2)
     ctx.rule('C06.OKFLAG', lambda: rule_okflag(ctx, cm), 20)
     ctx.rule('C06.CANCEL', lambda: rule_cancel(ctx, lc), 4)
+    from .flushall import rule_flushall
+    ctx.rule('C06.FLUSHALL', lambda: rule_flushall(ctx, 'C06'), 3)
     # each backup job leaves the durable state consistent at one height: the history truncation belongs to
     # the same job as the UTXO commit (a stop between jobs is a legal cancellation instant)
     from ..effects import InlineGraph
